@@ -166,7 +166,7 @@ func specInterrupts() bool {
 
 //@ func (*Entry).logContext
 //@   props C01 C02 C12 C13
-//@   requires s != nil && specFmtInv(s)
+//@   requires s != nil && specFmtInv(s) && 0 <= s.extraFrames && s.extraFrames <= 1048576
 //@   requires [INV-dw] forall(k, 0, len(specDest(s, lvl)), !isnil(specDest(s, lvl)[k]) && !typeis(specDest(s, lvl)[k], LWs) && implies(typeis(specDest(s, lvl)[k], *logwr), dyn(specDest(s, lvl)[k], *logwr) != nil && !typeis(dyn(specDest(s, lvl)[k], *logwr).Writer, *logwr) && !typeis(dyn(specDest(s, lvl)[k], *logwr).Writer, LWs)))
 //@   requires [INV-dw.warn] forall(k, 0, len(specDest(s, WarnLevel)), !isnil(specDest(s, WarnLevel)[k]) && !typeis(specDest(s, WarnLevel)[k], LWs) && implies(typeis(specDest(s, WarnLevel)[k], *logwr), dyn(specDest(s, WarnLevel)[k], *logwr) != nil && !typeis(dyn(specDest(s, WarnLevel)[k], *logwr).Writer, *logwr) && !typeis(dyn(specDest(s, WarnLevel)[k], *logwr).Writer, LWs)))
 //@   effect ghost.emits = ghost.emits + 1
@@ -2070,7 +2070,7 @@ func specTellable(m LogWriter) bool {
 //@ func (*Entry).printOut
 //@   props C02 C03 C13
 //@   dispatch
-//@   requires s != nil && defaultWriter != nil && isnil(s.handlerOpt) && ghost.trN >= 0 && specFmtInv(s)
+//@   requires s != nil && defaultWriter != nil && isnil(s.handlerOpt) && ghost.trN >= 0 && specFmtInv(s) && 0 <= s.extraFrames && s.extraFrames <= 1048576
 //@   requires [INV-dw] forall(k, 0, len(specDest(s, lvl)), !isnil(specDest(s, lvl)[k]) && !typeis(specDest(s, lvl)[k], LWs) && implies(typeis(specDest(s, lvl)[k], *logwr), dyn(specDest(s, lvl)[k], *logwr) != nil && !typeis(dyn(specDest(s, lvl)[k], *logwr).Writer, *logwr) && !typeis(dyn(specDest(s, lvl)[k], *logwr).Writer, LWs)))
 //@   requires [INV-dw.warn] forall(k, 0, len(specDest(s, WarnLevel)), !isnil(specDest(s, WarnLevel)[k]) && !typeis(specDest(s, WarnLevel)[k], LWs) && implies(typeis(specDest(s, WarnLevel)[k], *logwr), dyn(specDest(s, WarnLevel)[k], *logwr) != nil && !typeis(dyn(specDest(s, WarnLevel)[k], *logwr).Writer, *logwr) && !typeis(dyn(specDest(s, WarnLevel)[k], *logwr).Writer, LWs)))
 //@   effect ghost.records = ghost.records + 1
@@ -2089,7 +2089,7 @@ func specTellable(m LogWriter) bool {
 
 //@ func (*Entry).printImpl
 //@   props C02 C13
-//@   requires s != nil && defaultWriter != nil && isnil(s.handlerOpt) && ghost.trN >= 0 && specFmtInv(s) && pc != nil && pc.off == 0 && 0 <= len(pc.buf)
+//@   requires s != nil && defaultWriter != nil && isnil(s.handlerOpt) && ghost.trN >= 0 && specFmtInv(s) && 0 <= s.extraFrames && s.extraFrames <= 1048576 && pc != nil && pc.off == 0 && 0 <= len(pc.buf)
 //@   requires [INV-dw] forall(k, 0, len(specDest(s, pc.lvl)), !isnil(specDest(s, pc.lvl)[k]) && !typeis(specDest(s, pc.lvl)[k], LWs) && implies(typeis(specDest(s, pc.lvl)[k], *logwr), dyn(specDest(s, pc.lvl)[k], *logwr) != nil && !typeis(dyn(specDest(s, pc.lvl)[k], *logwr).Writer, *logwr) && !typeis(dyn(specDest(s, pc.lvl)[k], *logwr).Writer, LWs)))
 //@   requires [INV-dw.warn] forall(k, 0, len(specDest(s, WarnLevel)), !isnil(specDest(s, WarnLevel)[k]) && !typeis(specDest(s, WarnLevel)[k], LWs) && implies(typeis(specDest(s, WarnLevel)[k], *logwr), dyn(specDest(s, WarnLevel)[k], *logwr) != nil && !typeis(dyn(specDest(s, WarnLevel)[k], *logwr).Writer, *logwr) && !typeis(dyn(specDest(s, WarnLevel)[k], *logwr).Writer, LWs)))
 //@   assigns everything
@@ -2108,7 +2108,7 @@ func specTellable(m LogWriter) bool {
 
 //@ func (*Entry).print
 //@   props C02 C13
-//@   requires s != nil && defaultWriter != nil && isnil(s.handlerOpt) && ghost.trN >= 0 && specFmtInv(s)
+//@   requires s != nil && defaultWriter != nil && isnil(s.handlerOpt) && ghost.trN >= 0 && specFmtInv(s) && 0 <= s.extraFrames && s.extraFrames <= 1048576
 //@   requires [INV-dw] forall(k, 0, len(specDest(s, lvl)), !isnil(specDest(s, lvl)[k]) && !typeis(specDest(s, lvl)[k], LWs) && implies(typeis(specDest(s, lvl)[k], *logwr), dyn(specDest(s, lvl)[k], *logwr) != nil && !typeis(dyn(specDest(s, lvl)[k], *logwr).Writer, *logwr) && !typeis(dyn(specDest(s, lvl)[k], *logwr).Writer, LWs)))
 //@   requires [INV-dw.warn] forall(k, 0, len(specDest(s, WarnLevel)), !isnil(specDest(s, WarnLevel)[k]) && !typeis(specDest(s, WarnLevel)[k], LWs) && implies(typeis(specDest(s, WarnLevel)[k], *logwr), dyn(specDest(s, WarnLevel)[k], *logwr) != nil && !typeis(dyn(specDest(s, WarnLevel)[k], *logwr).Writer, *logwr) && !typeis(dyn(specDest(s, WarnLevel)[k], *logwr).Writer, LWs)))
 //@   assigns everything
